@@ -730,6 +730,12 @@ def c10_worlds(rng: random.Random) -> list[dict]:
     W("missing_in_lookup_paths", {M: 'import "lib/x.exps";\n' + VALID_MAIN, "/proj/unlisted/lib/x.exps": leaf}, lookup=["/proj/macros", "/opt/shared"])
     # the pinned tree rejects `..` in a lookup-path import; the property does not ask for that, only for an answer
     W("lookup_import_with_dot_segments", {M: 'import "lib/../x.exps";\n' + VALID_MAIN, "/proj/macros/x.exps": leaf}, lookup=["/proj/macros"], expect="answer")
+    # missing imports whose path fails for another reason than "no such file"
+    W("import_path_runs_through_a_regular_file", {M: 'import "./lib.exps/extra.exps";\n' + VALID_MAIN, "/proj/SCRIPT/lib.exps": leaf})
+    W("lookup_import_path_runs_through_a_regular_file", {M: 'import "lib.exps/extra.exps";\n' + VALID_MAIN, "/proj/macros/lib.exps": leaf}, lookup=["/proj/macros"])
+    W("import_of_a_self_referencing_symlink", {M: 'import "./loop.exps";\n' + VALID_MAIN}, links={"/proj/SCRIPT/loop.exps": "loop.exps"})
+    W("import_through_two_symlinks_pointing_at_each_other", {M: 'import "./d1.exps";\n' + use, "/proj/SCRIPT/d1.exps": 'import "./a.exps";\n' + leaf},
+      links={"/proj/SCRIPT/a.exps": "b.exps", "/proj/SCRIPT/b.exps": "a.exps"})
     W("import_of_a_directory", {M: 'import "./lib";\n' + VALID_MAIN, "/proj/SCRIPT/lib/x.exps": leaf})
     W("import_of_a_directory_through_the_lookup_paths", {M: 'import "lib";\n' + VALID_MAIN, "/proj/macros/lib/x.exps": leaf}, lookup=["/proj/macros"])
     W("directory_named_like_the_import_in_an_earlier_lookup_path", {M: 'import "lib.exps";\n' + use, "/proj/a/lib.exps/x.exps": "macro unrelated() { u(); }\n",
@@ -805,6 +811,18 @@ def c10_worlds(rng: random.Random) -> list[dict]:
         W(f"degenerate:{nm}", {M: src}, expect="answer")
         if src.startswith("def") and "//?" not in src:
             W(f"degenerate:{nm}@imported_sibling_is_fine", {M: 'import "./lib.exps";\n' + src, "/proj/SCRIPT/lib.exps": leaf}, expect="answer")
+    # every kind of condition header with every operator, supported or not (rarely used headers have their own operator
+    # handling): whatever the answer is, it is success or one of the three documented exception types
+    HEADERS = {"variable": ("$V", "1"), "variable_vs_value": ("$V", "value($W)"), "scn": ("scn($S)", "[1, 2]"), "scn_index": ("scn($S)[0]", "1"),
+               "random": ("random(3)", "1"), "dungeon_mode": ("dungeon_mode(2)", "DMODE_OPEN"), "sector": ("sector()", "1"),
+               "menu": ("menu('x')", "1"), "operation": ("ProcessSpecial(1, 2, 3)", "1"), "bit": ("$V[3]", "1"), "performance": ("$PERFORMANCE_PROGRESS_LIST[3]", "1")}
+    OPERATORS = ["==", "!=", "<", "<=", ">", ">=", "&", "^", "&<<", "TRUE", "FALSE"]
+    for hn, (lhs, rhs) in HEADERS.items():
+        for on in OPERATORS:
+            cond = f"{lhs} {on} {rhs}"
+            W(f"header:{hn}:{on}@if", {M: f"def 0 {{\n    if ({cond}) {{\n        a();\n    }}\n    end;\n}}\n"}, expect="answer")
+            W(f"header:{hn}:{on}@negated_elseif_in_macro", {M: f"macro hm() {{\n    if (debug) {{\n        a();\n    }} elseif not ({cond}) {{\n        b();\n    }}\n}}\ndef 0 {{\n    ~hm();\n    end;\n}}\n"}, expect="answer")
+            W(f"header:{hn}:{on}@while_and_switch", {M: f"def 0 {{\n    while ({cond}) {{\n        a();\n    }}\n    switch ({lhs}) {{\n        case {on} {rhs}:\n            b();\n            break;\n    }}\n    end;\n}}\n"}, expect="answer")
     # programs marked as SsbScript take another path through compile() (dispatch on the meta attribute)
     MK = "//?: is-ssb-script: true\n"
     W("ssbscript_syntax_error", {M: MK + "def 0 {\n    a(;\n}\n"})
